@@ -165,11 +165,50 @@ def run_impl(case, pid):
     def name_id(nm):
         return int(nm[3:])
 
+    api_box = {}
+
+    def _through_cell_api(nm, insts):
+        """The cell API's side of the monitor's delete request: the real `api.instance.API.bulk_delete` (the handler of
+        `/instance/_bulk/delete`), with `masterapi.delete_apps` recording what it is asked to delete - exactly the
+        instances of the request."""
+        if nm == '?' or not insts:
+            return
+        try:
+            if 'api' not in api_box:
+                import decorator
+                if not hasattr(decorator, 'getargspec'):      # decorator>=5 dropped it; schema.py calls it
+                    decorator.getargspec = decorator.getfullargspec
+                from treadmill.api import instance as _api_instance
+                api_box['mod'] = _api_instance
+                api_box['api'] = _api_instance.API()
+        except Exception:  # pylint: disable=broad-except
+            api_box['api'] = None
+        if api_box.get('api') is None:
+            run.tags.add('cell-api-unavailable')
+            return
+        asked = []
+        sent = []
+        with mock.patch.object(api_box['mod'].masterapi, 'delete_apps',
+                               lambda _zk, ids, deleted_by=None: asked.append(list(ids))), \
+                mock.patch('treadmill.context.GLOBAL', mock.Mock()):
+            try:
+                # (the harness' one-letter proid is not a proid the API's schema admits: the same request under `proid`)
+                sent = ['proid' + i_[len(nm.partition('.')[0]):] for i_ in insts]
+                api_box['api'].bulk_delete('proid', list(sent))
+            except Exception as exc:  # pylint: disable=broad-except
+                asked.append('raised %r' % (exc,))
+        run.tags.add('cell-api-bulk-delete')
+        if asked != [list(sent)]:
+            run.hits.append(fw.Hit(clause='bulk-delete-differs-from-request', call_site='api.instance.bulk_delete',
+                                   detail='the monitor asked for %r, the API handler passed %r to masterapi.delete_apps' % (
+                                       insts, asked)))
+
     def post(_api, url, payload=None, headers=None):
         if url.startswith('/instance/_bulk/delete'):
             insts = list(payload['instances'])
             nm = insts[0].rpartition('#')[0] if insts else '?'
             calls.append(('d', nm, insts))
+            _through_cell_api(nm, insts)
             if outcome.get(str(name_id(nm)) if nm != '?' else '?', 'ok') != 'ok':
                 raise Exception('delete failed')
             return mock.Mock()
